@@ -132,3 +132,73 @@ func VerifC10() {
 	}
 	vCover("c10-end")
 }
+
+// VerifC10Retransmit: the retransmission family at depth 5: a QoS 2 delivery whose
+// acknowledgements may be lost at any point, the broker retransmitting PUBLISH (dup) /
+// PUBREL after every resume: the application sees the message exactly once.
+func VerifC10Retransmit() {
+	sess := session.NewMemorySession()
+	calls := 0
+	cb := func(msg *packet.Message, err error) error {
+		if err == nil && msg != nil {
+			calls++
+			vAssert(calls <= 1, "a QoS 2 message is passed to the application at most once per handshake")
+		}
+		return nil
+	}
+	var conn *vConn
+	var cl *Client
+	connect := func() bool {
+		conn = newVConn(true)
+		cl = New()
+		cl.Session = sess
+		cl.Callback = cb
+		if _, err := cl.Connect(mkConfig(conn, false)); err != nil {
+			cl.Close()
+			return false
+		}
+		conn.in <- connack(packet.ConnectionAccepted, true)
+		vQuiesce()
+		return conn.alive()
+	}
+	rounds := 0
+	gotRec, gotComp := false, false
+	for !gotRec && rounds < 3 {
+		rounds++
+		if !connect() {
+			continue
+		}
+		p := packet.NewPublish()
+		p.ID, p.Dup = 4, rounds > 1
+		p.Message = packet.Message{Topic: "t", Payload: []byte{4, 1}, QOS: 2}
+		conn.in <- p
+		vQuiesce()
+		if conn.count(packet.PUBREC) == 1 {
+			gotRec = true
+		} else {
+			cl.Close()
+		}
+	}
+	for gotRec && !gotComp && rounds < 5 {
+		rounds++
+		if !conn.alive() {
+			cl.Close()
+			if !connect() {
+				continue
+			}
+		}
+		conn.in <- &packet.Pubrel{ID: 4}
+		vQuiesce()
+		if conn.count(packet.PUBCOMP) >= 1 {
+			gotComp = true
+		}
+	}
+	if gotComp {
+		vCover("c10-retransmit-completed")
+		vAssert(calls == 1, "the message was delivered exactly once when the handshake completed")
+	}
+	if cl != nil {
+		cl.Close()
+	}
+	vCover("c10-retransmit-end")
+}
